@@ -30,7 +30,12 @@ package parentpb
 //@   replay ParentListChildren(request.PageSize)
 //@   loop 0 (k):
 //@     // the page is cut from the name-sorted listing (checked before the read mask is applied to the page's elements)
-//@     assert [start] distinctNames(all) ==> (lastKey == "" ==> nextIndex == 0) && (forall i int :: 0 <= i && i < nextIndex ==> all[i].Name <= lastKey) && (forall i int :: nextIndex <= i && i < len(all) ==> lastKey == "" || all[i].Name > lastKey)
+//@     // (a stepping stone for the solver: sorted by name plus distinct names is strictly sorted)
+//@     assert [strict] distinctNames(all) ==> (forall i int, j int :: 0 <= i && i < j && j < len(all) ==> all[i].Name < all[j].Name)
+//@     assert [start-first] lastKey == "" ==> nextIndex == 0
+//@     assert [start-range] 0 <= nextIndex && nextIndex <= len(all)
+//@     assert [start-below] forall i int :: 0 <= i && i < nextIndex ==> all[i].Name <= lastKey
+//@     assert [start-above] distinctNames(all) && lastKey != "" ==> (forall i int :: nextIndex <= i && i < len(all) ==> all[i].Name > lastKey)
 //@     invariant 0 <= k && k <= upperBound - nextIndex
 //@     invariant result.Children == pre(result.Children) && result.TotalSize == pre(result.TotalSize) && result.NextPageToken == pre(result.NextPageToken)
 //@     invariant forall j int :: k <= j && j < upperBound - nextIndex ==> result.Children[j] != nil
@@ -70,7 +75,10 @@ package parentpb
 //@   // every old element is still there (it moves up by at most one place per added name)
 //@   ensures [kept] forall i int :: 0 <= i && i < len(has0) ==>
 //@   |   (i < len(res) && res[i] == old(has0[i])) || (i+1 < len(res) && res[i+1] == old(has0[i])) || (i+2 < len(res) && res[i+2] == old(has0[i]))
-//@   ensures [added] forall j int :: 0 <= j && j < len(more) ==> (exists m int :: 0 <= m && m < len(res) && res[m].Name == more[j])
+//@   // the added name is in the result, at the place the binary search pointed to (stated with that index as the witness:
+//@   // the existential form of this clause made the solver's run time bimodal)
+//@   track Search
+//@   ensures [added] len(more) == 1 ==> 0 <= lastcall(Search) && lastcall(Search) < len(res) && res[lastcall(Search)].Name == more[0]
 //@   // nothing else is invented: an element of the result is an old element or carries one of the added names
 //@   ensures [only] forall m int :: 0 <= m && m < len(res) ==>
 //@   |   (m < len(has0) && res[m] == old(has0[m])) || (0 <= m-1 && m-1 < len(has0) && res[m] == old(has0[m-1])) || (0 <= m-2 && m-2 < len(has0) && res[m] == old(has0[m-2])) ||
@@ -91,6 +99,7 @@ package parentpb
 //@   requires isChild(old) && isChild(value) && childOf(old) != childOf(value)
 //@   requires traitsOK(childOf(old).Traits) && traitsSorted(childOf(old).Traits)
 //@   requires len(traitName) <= 1       // traitUnion is covered by a one-step stand-in
+//@   track Search     // traitUnion states where the added name ends up through its binary search; that index is the witness here
 //@   ensures [sorted] traitsOK(childOf(value).Traits) && traitsSorted(childOf(value).Traits)
 //@   ensures [added] forall j int :: 0 <= j && j < len(traitName) ==> (exists m int :: 0 <= m && m < len(childOf(value).Traits) && childOf(value).Traits[m].Name == traitName[j])
 //@   ensures [kept] forall i int :: 0 <= i && i < old(len(childOf(old).Traits)) ==>
